@@ -15,10 +15,40 @@ use std::{
 use crate::io::{FatPage, IoCommand, IoHandle, IoKind};
 
 pub(super) fn write_wal(mut wal_fd: &File, wal_blob: &[u8]) -> std::io::Result<()> {
+    #[cfg(feature = "verif")]
+    let _vg = crate::verif::pre(
+        "wal_write_truncate",
+        crate::verif::Kind::SetLen,
+        wal_fd.as_raw_fd(),
+        0,
+        &[],
+    )?;
     wal_fd.set_len(0)?;
+    #[cfg(feature = "verif")]
+    _vg.done();
     wal_fd.seek(SeekFrom::Start(0))?;
+    #[cfg(feature = "verif")]
+    let _vg = crate::verif::pre(
+        "wal_write",
+        crate::verif::Kind::Write,
+        wal_fd.as_raw_fd(),
+        0,
+        wal_blob,
+    )?;
     wal_fd.write_all(wal_blob)?;
+    #[cfg(feature = "verif")]
+    _vg.done();
+    #[cfg(feature = "verif")]
+    let _vg = crate::verif::pre(
+        "wal_fsync",
+        crate::verif::Kind::Fsync,
+        wal_fd.as_raw_fd(),
+        0,
+        &[],
+    )?;
     wal_fd.sync_all()?;
+    #[cfg(feature = "verif")]
+    _vg.done();
     Ok(())
 }
 
@@ -26,10 +56,30 @@ pub(super) fn write_wal(mut wal_fd: &File, wal_blob: &[u8]) -> std::io::Result<(
 ///
 /// Conditionally syncs the file to disk.
 pub(super) fn truncate_wal(mut wal_fd: &File, do_sync: bool) -> std::io::Result<()> {
+    #[cfg(feature = "verif")]
+    let _vg = crate::verif::pre(
+        "wal_truncate",
+        crate::verif::Kind::SetLen,
+        wal_fd.as_raw_fd(),
+        0,
+        &[],
+    )?;
     wal_fd.set_len(0)?;
+    #[cfg(feature = "verif")]
+    _vg.done();
     wal_fd.seek(SeekFrom::Start(0))?;
     if do_sync {
+        #[cfg(feature = "verif")]
+        let _vg = crate::verif::pre(
+            "wal_truncate_fsync",
+            crate::verif::Kind::Fsync,
+            wal_fd.as_raw_fd(),
+            0,
+            &[],
+        )?;
         wal_fd.sync_all()?;
+        #[cfg(feature = "verif")]
+        _vg.done();
     }
     Ok(())
 }
@@ -57,7 +107,17 @@ pub(super) fn write_ht(
         sent -= 1;
     }
 
+    #[cfg(feature = "verif")]
+    let _vg = crate::verif::pre(
+        "ht_fsync",
+        crate::verif::Kind::Fsync,
+        ht_fd.as_raw_fd(),
+        0,
+        &[],
+    )?;
     ht_fd.sync_all()?;
+    #[cfg(feature = "verif")]
+    _vg.done();
 
     Ok(())
 }
